@@ -59,7 +59,12 @@ theorem entryStep_errs (ind : List Char) (st : PState) (nr : Nat) (l : List Char
   · split
     · split
       · exact ⟨⟨[], by simp⟩, fun h => h⟩
-      · exact ⟨⟨_, rfl⟩, fun h => h⟩
+      · obtain ⟨y, hy⟩ := commit_errs st
+        refine ⟨⟨y ++ [⟨nr, 0, l.length, .malformedSummary⟩], ?_⟩, fun h => ?_⟩
+        · show st.commit.errs ++ _ = _
+          rw [hy, List.append_assoc]
+        · show st.commit.panicked = true
+          rw [PState.commit_panicked]; exact h
     · obtain ⟨⟨x, hx⟩, hp⟩ := entryStepB_errs ind st.commit nr l
       obtain ⟨y, hy⟩ := commit_errs st
       refine ⟨⟨y ++ x, by rw [hx, hy, List.append_assoc]⟩, fun h => hp ?_⟩
@@ -230,7 +235,7 @@ theorem entryStep_cases (ind : List Char) (st : PState) (nr : Nat) (l : List Cha
       entryStep ind st nr l =
         if okEntrySummaryCont (l.drop (ind ++ ind).length) then
           { st with pending := some { p with summary := p.summary ++ [l.drop (ind ++ ind).length] } }
-        else { st with pending := none, errs := st.errs ++ [⟨nr, 0, l.length, .malformedSummary⟩] }) ∨
+        else { st.commit with errs := st.commit.errs ++ [⟨nr, 0, l.length, .malformedSummary⟩] }) ∨
     entryStep ind st nr l = entryStepB ind st.commit nr l := by
   rw [entryStep_eq]
   simp only [hsp, Bool.false_eq_true, if_false]
